@@ -7,6 +7,7 @@ mod clpfd;
 mod clpz;
 mod fd;
 mod hooks;
+mod lterm;
 mod search;
 mod unify;
 mod util;
@@ -40,6 +41,8 @@ fn main() {
         ("replay", "clpfd") => clpfd::replay(&args[3]),
         ("search", "hooks") => hooks::search(&tier, only.as_deref()),
         ("replay", "hooks") => hooks::replay(&args[3]),
+        ("search", "lterm") => lterm::search(&tier, only.as_deref()),
+        ("replay", "lterm") => lterm::replay(&args[3]),
         ("search", "unify") => unify::search(&tier, only.as_deref()),
         ("replay", "unify") => unify::replay(&args[3]),
         ("search", "clpz") => clpz::search(&tier, only.as_deref()),
